@@ -67,7 +67,9 @@ LEVELS = ["DEBUG", "INFO", "WARNING", "ERROR", "CRITICAL"]
 FORMATS = ["text", "json", "yaml"]
 MARKER = " " + "=" * 76 + "\n GLOBAL SETTINGS"  # comment text (after '#') of the template's marker lines
 PROBE_CMDS = {"magic-numbers": "magic-numbers", "nesting": "nesting", "srp": "srp",
-              "print-statements": "print-statements", "method-property": "method-property"}
+              "print-statements": "print-statements", "method-property": "method-property",
+              "improper-logging": "improper-logging"}  # (the documented name of the print-statements linter's section)
+SYNONYM = {"print-statements": "improper-logging", "pipeline": "collection-pipeline"}  # template name -> the linter's other section name
 # deviation of the tool that is recorded as a known finding: template sections the merge never adds
 NEVER_ADDED = {"performance", "unwrap-abuse", "clone-abuse", "blocking-async"}
 # failures after which the file is still a faithful basis for the following steps (the history goes on)
@@ -530,7 +532,9 @@ def step_init(p, file, step, model, labels):
         return [], "init-on-invalid"
 
     present = {canon(k) for k in d0}
-    missing = [s for s in template_sections if s not in present]
+    # a linter whose section exists under its other documented name is not "missing" (adding the template's
+    # print-statements section next to the user's improper-logging section would override it)
+    missing = [s for s in template_sections if s not in present and SYNONYM.get(s) not in present]
     e0 = _effective(path)
     probe_secs = [s for s in PROBE_CMDS if s in present] if p.probe else []
     pr0 = _probe(p, file, probe_secs)
